@@ -56,6 +56,11 @@ def balance(ctx, rep, key):
         a = event_args(g, n)
         if a and MAP(a[0]) and mut_first_arg(g, n):
             map_calls[n] = cpath(g.term(n)).split("::")[-1]
+    # the map replaced wholesale (mem::take / mem::replace / mem::swap on the map place): counts as a clear / an unknown mutation
+    for n in P.calls(r"mem::(take|replace|swap)$"):
+        a = event_args(g, n)
+        if a and any(MAP(strip_ids(x)) for x in a):
+            map_calls[n] = "clear" if cmatch(g.term(n), r"mem::take$") else "mem::" + cpath(g.term(n)).split("::")[-1]
     size_writes = {}
     for n in g.nodes:
         if n not in P.live:
@@ -319,6 +324,67 @@ def run(ctx, rep):
     if rep.expect("R15.4", "RaftLog::drain_cache_evictable", len(pub_drain) == 1):
         eviction_tables(ctx, rep, pub_drain[0], False)
     r15_5(ctx, rep)
+    r15_7(ctx, rep)
+
+
+def outside_mutators(ctx):
+    """bodies outside `impl PayloadCache` whose OWN statements assign to, or mutably borrow, a field of a PayloadCache"""
+    out = {}
+    for b in ctx.facts.doc["bodies"]:
+        k = b["key"]
+        if "payload_cache::PayloadCache<T>" in (b.get("impl_self") or "") or re.search(r"payload_cache::PayloadCache(<T>>|::<T>)::", k):
+            continue
+
+        def pc_field(pl):
+            fl = [el for el in pl.get("proj", []) if isinstance(el, dict) and "f" in el]
+            for el in fl:
+                if (el.get("adt") or "").endswith("payload_cache::PayloadCache"):
+                    return el.get("n")
+            return None
+        for blk in b.get("blocks", []):
+            for st in blk.get("stmts", []):
+                if st["k"] != "assign":
+                    continue
+                f = pc_field(st["p"])
+                if f:
+                    out.setdefault(k, set()).add(f)
+                rv = st["rv"]
+                if (rv["k"] == "ref" and rv.get("mut")) or rv["k"] == "rawptr":
+                    f = pc_field(rv["p"])
+                    if f:
+                        out.setdefault(k, set()).add(f)
+    return out
+
+
+def r15_7(ctx, rep):
+    rep.rule("R15.7", "frame condition of R15.1: the map and the byte total of PayloadCache are assigned / mutably borrowed only inside its own "
+                      "methods; any other function that touches them is put through the same balance analysis")
+    outs = outside_mutators(ctx)
+    if not outs:
+        rep.ok("R15.7", "PayloadCache fields", "no assignment to or &mut borrow of a PayloadCache field outside its impl (%d bodies scanned)"
+               % len(ctx.facts.doc["bodies"]))
+    for k, fields in sorted(outs.items()):
+        rep.notes.append("R15.7: %s touches PayloadCache.{%s} directly; balance analysis applied" % (short_key(k), ",".join(sorted(fields))))
+        balance(ctx, _R157(rep, short_key(k)), k)
+
+
+class _R157:
+    """files the R15.1 balance result of an outside mutator under R15.7"""
+    def __init__(self, rep, who):
+        self.rep, self.who = rep, who
+
+    def __getattr__(self, name):
+        f = getattr(self.rep, name)
+        if name == "violation":
+            def g(rule, key, site, detail, **kw):
+                return f("R15.7", "%s|%s" % (self.who, key.split("|")[-1]), self.who,
+                         "PayloadCache is mutated outside its own methods and the effects do not balance: " + detail, **kw)
+            return g
+        if name == "ok":
+            def g(rule, site, detail="", **kw):
+                return f("R15.7", self.who, "mutates PayloadCache fields directly; " + detail, **kw)
+            return g
+        return f
 
 
 def r15_5(ctx, rep):
